@@ -474,6 +474,17 @@ class Exec:
                     n = b
                     k = (1 if incl else 0) - i0[1]
                     return n if k == 0 else ('op', 'add', n, C(k))
+            # counting down: `for (left = n; left != 0; --left)` / `while (left > 0) { ...; --left; }`: n trips
+            if a[0] == 'iv' and a[1] == lid and i0 is not None and not has_kind(i0, ('iv', 'lv', 'hv')) and b == C(0):
+                down = (stay and pred in ('ne', 'ugt', 'sgt')) or ((not stay) and pred in ('eq', 'ule', 'sle'))
+                steps = set()
+                phi = [p for p in phis if p.id == a[2]][0]
+                for lv in ctx['latch_vals']:
+                    for (bb, v) in phi.incoming:
+                        if fr.f.bmap[bb] in L['blocks']:
+                            steps.add(lv.get(v.id) if v.k == 'inst' else None)
+                if down and steps == {('op', 'add', a, C(-1))}:
+                    return i0
         if c[0] == 'call' and len(c) == 4:
             name = c[1]
             if (name.startswith('operator!=') and stay) or (name.startswith('operator==') and not stay):
